@@ -224,4 +224,32 @@ example : wEx.satisfiesQ (.write 1) ⟨0, 1⟩ = some true := by decide
 example : (Q.pair (.write 0) (.pair (.read 1) .unit)).assertBorrowOk = true := by decide
 example : (Q.pair (.write 0) (.pair (.read 0) .unit)).assertBorrowOk = false := by decide
 
+/-! ### derived queries (`#[derive(Query)]`, macros/src/query.rs)
+
+A derived struct is the tuple of its fields (`pair`).  A derived enum prepares the *first* variant all
+of whose fields prepare and yields that variant; in the shapes of this model that is
+`or V₁ (without V₂ V₁)`, the form under which the harness presents derived enums. -/
+
+/-- first-match choice between two variants -/
+def firstOf (l r : Q) : Q := .or l (.without r l)
+
+/-- it matches exactly the component sets matching some variant -/
+theorem firstOf_sat (l r : Q) (ts : List Nat) : (firstOf l r).sat ts = (l.sat ts || r.sat ts) := by
+  simp only [firstOf, Q.sat]; cases l.sat ts <;> simp
+
+/-- it yields the first variant if that one matches, else the second — never both -/
+theorem firstOf_item (l r : Q) (ts : List Nat) (vals : List Comp) :
+    (firstOf l r).item ts vals =
+      if l.prepares ts then .left (l.item ts vals)
+      else if r.prepares ts then .right (r.item ts vals) else .none := by
+  have ha : (l.access ts).isSome = l.sat ts := Q.access_isSome_eq_sat l ts
+  have hl : l.prepares ts = l.sat ts := Q.prepares_eq_sat l ts
+  have hr : r.prepares ts = r.sat ts := Q.prepares_eq_sat r ts
+  unfold firstOf
+  simp only [Q.item, Q.prepares, ha, hl, hr]
+  cases l.sat ts <;> cases r.sat ts <;> rfl
+
+example : (firstOf (.read 0) (.write 1)).item [0, 1] [(0, 5), (1, 6)] = .left (.val 0 5) := by decide
+example : (firstOf (.read 0) (.write 1)).item [1] [(1, 6)] = .right (.val 1 6) := by decide
+
 end Hecs.Props.C08
